@@ -99,6 +99,8 @@ enum Rec {
 #[derive(Default)]
 struct RecSink {
     out: RefCell<Vec<Rec>>,
+    /// `script=1`: answer `Script` to every `</script>` end tag, like the XML tree builder does
+    script: bool,
 }
 
 impl RecSink {
@@ -134,6 +136,7 @@ impl TokenSink for RecSink {
             Token::Characters(s) => self.push(Rec::Chars(s.to_string())),
             Token::NullCharacter => self.push(Rec::Other("N".into())),
             Token::Tag(t) => {
+                let wants_script = self.script && t.kind == TagKind::EndTag && &*t.name.local == "script";
                 let k = match t.kind {
                     TagKind::StartTag => "s",
                     TagKind::EndTag => "e",
@@ -159,6 +162,9 @@ impl TokenSink for RecSink {
                     dh(&t.name.local),
                     attrs.join(",")
                 )));
+                if wants_script {
+                    return ProcessResult::Script(());
+                }
             },
             Token::ProcessingInstruction(p) => {
                 self.push(Rec::Other(format!("P:{}:{}", dh(&p.target), dh(&p.data))))
@@ -206,11 +212,22 @@ fn run_tok(opts: &str, state: &str, chunks: &str) -> String {
     let (Some(state), Some(chunks)) = (state, chunks) else {
         return "bad-case".into();
     };
-    let tok = XmlTokenizer::new(RecSink::default(), tok_opts(opts, state));
+    let sink = RecSink {
+        script: get_opt(opts, "script", false),
+        ..Default::default()
+    };
+    let tok = XmlTokenizer::new(sink, tok_opts(opts, state));
     let queue = BufferQueue::default();
     for ch in chunks {
         queue.push_back(StrTendril::from_slice(&ch));
-        let _ = tok.feed(&queue);
+        // a Script answer pauses the tokenizer: resume at once (nothing is injected)
+        let mut guard = 0;
+        while let markup5ever::TokenizerResult::Script(_) = tok.feed(&queue) {
+            guard += 1;
+            if guard > 100000 {
+                return format!("HANG {}", tok.sink.render());
+            }
+        }
         if !queue.is_empty() {
             return format!("QUEUE-NOT-DRAINED {}", tok.sink.render());
         }
